@@ -277,6 +277,17 @@ func (r *Run) mutator(c *ClientSpec) {
 				}
 			case "callback":
 				cfg = got
+			case "defaults":
+				// the defaults struct is the caller's own memory: after Config
+				// has returned the caller may reuse it for anything
+				r.defaultsScribbled = true
+				r.probe("caller-reused-its-defaults")
+				if fp := render(r.defaults); fp != r.defFP {
+					r.fail("C02.input-modified", "the caller's defaults were modified by dials\n before: %s\n after:  %s", r.defFP, fp)
+				}
+				scribble(r.defaults)
+				r.defFP = render(r.defaults)
+				continue
 			}
 			if cfg != nil {
 				r.probe("mutation[" + op.Str + "]")
@@ -358,6 +369,9 @@ func (r *Run) oracleC02() {
 		return d.View()
 	}
 	_ = vals
+	if r.defaultsScribbled {
+		return
+	}
 	a, b := mk(), mk()
 	if a == nil || b == nil {
 		return
